@@ -3,6 +3,7 @@ package props
 import (
 	"fmt"
 	"sync"
+	"sync/atomic"
 	"testing"
 	"testing/synctest"
 	"time"
@@ -13,6 +14,7 @@ import (
 
 	"verifharness/ev"
 	"verifharness/lib"
+	"verifharness/memnet"
 	"verifharness/peer"
 	"verifharness/refcodec"
 	"verifharness/sctpmem"
@@ -64,6 +66,8 @@ func runC16Stream(c *ev.Case, ctx *lib.Ctx, sCER, sDWR, sApp uint16, zeroIDs, fa
 		rc     uint32
 	}
 	var exps []exp
+	var resumed []byte
+	resumedFrom := 0
 	h1, e1 := id(1)
 	app := uint32(4)
 	wantRC := uint32(2001)
@@ -88,6 +92,18 @@ func runC16Stream(c *ev.Case, ctx *lib.Ctx, sCER, sDWR, sApp uint16, zeroIDs, fa
 		assoc.Feed(sApp, peer.Msg(0xC0, 272, 4, h3, e3, peer.Str(peer.SessionID, refcodec.UTF8String, "s;1")))
 		exps = append(exps, exp{"application answer", sApp, refcodec.Header{Version: 1, Flags: 0xC0, Code: 272, App: 4, HopByHop: h3, EndToEnd: e3}, 2001})
 		synctest.Wait()
+		if !deferred {
+			// more watchdog requests on this state machine: other streams, other flag bytes
+			for k, st := range []uint16{sApp, sCER, sDWR} {
+				hk, ek := id(uint32(10 + k))
+				fl := []uint8{0xC0, 0x90, 0xD0}[k]
+				b := peer.DWR(hk, ek)
+				b[4] = fl
+				assoc.Feed(st, b)
+				exps = append(exps, exp{"DWA", st, refcodec.Header{Version: 1, Flags: fl, Code: 280, HopByHop: hk, EndToEnd: ek}, 2001})
+				synctest.Wait()
+			}
+		}
 		if deferred {
 			// another message on another stream moves the reader on, then the kept request is answered
 			h4, e4 := id(4)
@@ -100,14 +116,42 @@ func runC16Stream(c *ev.Case, ctx *lib.Ctx, sCER, sDWR, sApp uint16, zeroIDs, fa
 				c.Fail(sig("setup"), nil, nil, "application request not dispatched")
 				return
 			}
-			done := make(chan struct{})
-			go func() { k.Answer(2001).WriteTo(kc); close(done) }()
-			<-done
-			// log order: CEA, DWA, DWA(4), application answer
+			// the transport accepts 10 bytes of the late answer and reports a temporary
+			// error; the caller asked for retries: the rest must follow on the same stream
+			nBefore := len(assoc.Writes())
+			var failed atomic.Bool
+			assoc.WriteScript = func(seq int, b []byte) (int, error) {
+				if failed.CompareAndSwap(false, true) {
+					return 10, &memnet.TempError{Msg: "EAGAIN"}
+				}
+				return len(b), nil
+			}
+			done := make(chan error, 1)
+			go func() { _, err := k.Answer(2001).WriteToWithRetry(kc, 2); done <- err }()
+			if err := <-done; err != nil {
+				c.Fail(sig("retry"), nil, nil, "WriteToWithRetry over the association: %v", err)
+				return
+			}
+			ws := assoc.Writes()
+			var whole []byte
+			for _, w := range ws[nBefore:] {
+				if w.Stream != sApp {
+					c.Fail(ev.Sig{"op": "answer-stream", "what": "resumed answer"}, w.Data, nil, "a part of the answer to a request received on stream %d (resumed after a temporary error) was written to stream %d", sApp, w.Stream)
+					return
+				}
+				whole = append(whole, w.Data...)
+			}
+			// log order: CEA, DWA, DWA(4), application answer (re-assembled)
 			exps = []exp{exps[0], exps[1], {"DWA", sDWR, refcodec.Header{Version: 1, Flags: 0x80, Code: 280, HopByHop: h4, EndToEnd: e4}, 2001}, exps[2]}
+			resumed = whole
+			resumedFrom = nBefore
 		}
 	}
 	ws := assoc.Writes()
+	if resumed != nil {
+		// the parts of the resumed answer count as one write
+		ws = append(append([]sctpmem.WriteRec{}, ws[:resumedFrom]...), sctpmem.WriteRec{Stream: sApp, Data: resumed})
+	}
 	if len(ws) != len(exps) {
 		c.Fail(sig("answer-count"), nil, nil, "%d writes on the association, %d answers expected (CER stream %d, DWR stream %d, application stream %d)", len(ws), len(exps), sCER, sDWR, sApp)
 		return
